@@ -15,7 +15,7 @@ for p in props:
     c = json.load(open(ev))["coverage"]
     nob = len(c["all_obligations"]); nex = sum(1 for o in c["all_obligations"] if o["status"] == "exempt")
     nk = sum(1 for f in kf["findings"] if f["property"] == pid)
-    fixes = [re.search(r"property=%s (\w+)" % pid, f).group(1) for f in kf["fixed"] if ("property=%s " % pid) in f]
+    fixes = list(dict.fromkeys(re.search(r"property=%s (\w+)" % pid, f).group(1) for f in kf["fixed"] if ("property=%s " % pid) in f))
     nm = len(glob.glob(os.path.join(here, "selftest", pid, "*.patch")))
     seeded = ""
     sm = os.path.join(here, "seeded", pid, "meta.json")
